@@ -116,7 +116,7 @@ class TWP(IdEnvWP):
         if key in self.env:
             self.env[key] = V(f'(+ {self.env[key].t} 1)', 'Int', 'long')
 
-    def record_copy(self, dbuf, doff, sbuf, soff, ln, drow=None, srow=None, whole=None):
+    def record_copy(self, dbuf, doff, sbuf, soff, ln, drow=None, srow=None, whole=None, rowcond='true'):
         self.ghost_bump('ghost.rows')
         self.ghost_set('ghost.dst', doff)
         self.ghost_set('ghost.src', soff)
@@ -131,7 +131,10 @@ class TWP(IdEnvWP):
                 raise Unsupported(f'{self.name}: gather: copy between other buffers than this tensor and the one output')
             self.gdst = dbuf
             if drow is not None and srow is not None:
-                self.ghost_set('ghost.gsrc', f'(ite (= {drow} {self.G}) {srow} {old})')
+                upd = f'(ite (= {drow} {self.G}) {srow} {old})'
+                if rowcond != 'true':      # the rows are first-axis rows only under `rowcond`: otherwise nothing is known afterwards
+                    upd = f'(ite {rowcond} {upd} {self.fresh("Int", "unknown_row", "long").t})'
+                self.ghost_set('ghost.gsrc', upd)
             elif whole is not None:
                 self.ghost_set('ghost.rows', f'(+ {self.env["ghost.rows"].t} (- {whole} 1))')      # `whole` rows written by this one copy
                 self.ghost_set('ghost.gsrc', f'(ite (and (<= 0 {self.G}) (< {self.G} {whole})) {self.G} {old})')
@@ -525,6 +528,12 @@ def decl_hook(wp, v, init):
         if val.s == 'Tensor':
             wp.env[v['name']] = val
             return True
+    if re.search(r'Eigen::Map<', q) and init:
+        # `auto m = t.matrix();` / `t.vector(i)`: a local Eigen::Map is the view itself (pointer + shape; no coefficients of its own)
+        val = wp.ev(look(init[0]))
+        if val.s == 'View':
+            wp.env[v['name']] = val
+            return True
     return False
 
 
@@ -580,6 +589,8 @@ def c_view(wp, tid, ptr, idx, n, kind):
         return t
     if kind == 'matrix':
         view['rows'], view['cols'] = wp.dim(tid, R - 2), wp.dim(tid, R - 1)
+        if m == 0 and T.get('rows_of'):
+            view['rows_of'] = T['rows_of']      # (original tensor, condition): matrix row k is first-axis row k of that tensor
     return V(wp.tmp(kind), 'View', view)
 
 
@@ -665,6 +676,10 @@ def c_reshape(wp, tid, ptr, sizes, n):
         pre, M0 = pre_reshape(wp, tid, sizes, j)
         cases.append((j, AND(*pre), M0))
     wp.oblige('callee reshape precondition: sizes >= 0 or exactly one -1 whose inferred value is exact', OR(*[c for _, c, _ in cases]), n)
+    # the part of that precondition whose violation is a crash (integer division by zero, SIGFPE), as an obligation of its own:
+    # `dim = -size() / ::nano::size(dimensions)` divides by the product of the OTHER sizes (reshape(n, -1) with n == 0)
+    wp.oblige('reshape_div0: callee reshape precondition: an inferred (-1) extent divides size() by a NON-ZERO product of the other sizes',
+              AND(*[IMP(f'(= {sizes[j]} (- 1))', NOT(f'(= {M0} 0)')) for j, _, M0 in cases if j is not None]), n)
     if ptr is not None and (ptr.c != T['buf'] or ptr.t != T['off']):
         wp.oblige('callee treshape precondition: ptr == data()', 'false', n)
     off = wp.fresh('Int', 'reshape_off', 'long')
@@ -672,7 +687,12 @@ def c_reshape(wp, tid, ptr, sizes, n):
     for j, c, M0 in cases:
         for _, e in ens_reshape(wp, tid, sizes, j, M0, {'off': off.t, 'dims': dims}):
             wp.assume(IMP(c, e))
-    return wp.new_tensor(dims, T['buf'], plus(T['off'], off.t), 'reshape')
+    t = wp.new_tensor(dims, T['buf'], plus(T['off'], off.t), 'reshape')
+    if N == 2 and T['off'] == '0':
+        # reshape(n, m) with n == dims[0] (a CONDITION, carried along): row k of the rank-2 tensor is first-axis row k of this one
+        # (same start, n rows that partition the same size() coefficients: by the clauses assumed above)
+        wp.tens[t.t]['rows_of'] = (tid, f'(= {sizes[0]} {wp.dim(tid, 0)})')
+    return t
 
 
 def targs_of(wp, me):
@@ -852,7 +872,8 @@ def h_view_assign(wp, n, args, callee):
     whole = None
     if dst.c.get('whole') and src.c.get('whole') == 'self' and wp.elems(wp.tens[dst.c['whole']]['dims'])[1:] == wp.elems('self.m_dims')[1:]:
         whole = wp.dim('self', 0)       # all rows of this tensor, in order, into an output with the same row shape
-    wp.record_copy(dst.c['buf'], dst.c['off'], src.c['buf'], src.c['off'], dst.c['len'], drow=dst.c.get('row'), srow=src.c.get('row'), whole=whole)
+    wp.record_copy(dst.c['buf'], dst.c['off'], src.c['buf'], src.c['off'], dst.c['len'], drow=dst.c.get('row'), srow=src.c.get('row'), whole=whole,
+                   rowcond=AND(dst.c.get('rowcond', 'true'), src.c.get('rowcond', 'true')))
     return dst
 
 
@@ -967,6 +988,22 @@ def gather_clause(wp, out_tid):
              gather_term(wp, wp.env['ghost.gsrc'].t) if ok else 'false')]
 
 
+def m_row(wp, n, args, obj):
+    """Eigen row(i) of a row-major matrix Map (ASSUMED: coefficients [i * cols, (i + 1) * cols) of the map); 0 <= i < rows() is
+    Eigen's asserted precondition"""
+    v = wp.ev(look(obj))
+    i = wp.ints(args)[0].t
+    if v.s != 'View' or 'rows' not in v.c:
+        raise Unsupported('row(i) on something else than a matrix view')
+    wp.oblige('Eigen row(i) precondition: 0 <= i < rows()', f'(and (<= 0 {i}) (< {i} {v.c["rows"]}))', n)
+    view = {'buf': v.c['buf'], 'off': plus(v.c['off'], times(i, v.c['cols'])), 'len': v.c['cols']}
+    if v.c.get('rows_of'):
+        view['row'], view['rowcond'] = i, v.c['rows_of'][1]
+        if v.c['rows_of'][0] not in ('self', 'subtensor'):
+            view.pop('row')
+    return V(wp.tmp('row'), 'View', view)
+
+
 def m_begin(wp, n, args, obj):
     """tensor begin() == data(), end() == data() + size()   (inline one-liners of tensor.h, read as their text)"""
     return m_data(wp, n, args, obj)
@@ -1026,7 +1063,7 @@ MEMBERS = [
     (r'^treshape\|', m_reshape(True)), (r'^reshape\|', m_reshape(False)),
     (r'^operator\(\)\|', m_call_operator),
     (r'^begin\|.*tensor_range_t', m_range('m_begin')), (r'^end\|.*tensor_range_t', m_range('m_end')),
-    (r'^begin\|.*' + TENSOR_T, m_begin), (r'^end\|.*' + TENSOR_T, m_end),
+    (r'^row\|', m_row), (r'^begin\|.*' + TENSOR_T, m_begin), (r'^end\|.*' + TENSOR_T, m_end),
     (r'^cast\|', m_cast), (r'^resize\|Eigen::', None), (r'^resize\|', m_resize), (r'^indexed\|', m_indexed),
     (r'^_resize\|', None),
 ]
